@@ -4,6 +4,7 @@
   of text, so all positions are UTF-16 positions).  Helper lemmas: Proofs/Resolve.lean.
 -/
 import PM.Resolve
+import PM.ResolveExtra
 import Proofs.Toks
 import Proofs.TokCore
 import Proofs.Resolve
@@ -731,5 +732,71 @@ theorem marks_spec (S : Schema) (doc : Node) (pos : Nat) (r : RPos) (h : doc.res
       cases hA : r.nodeAfter with
       | some a => simp only [hkeep]
       | none => rfl
+
+
+/-! ### `marks_across` and the index accessors of `NodeRange` (PM/ResolveExtra.lean) -/
+
+/-- **`marks_across(end)`**: nothing when there is no node after the position or it is not inline;
+    otherwise the marks of the node after the position that continue: a mark stays iff its type is
+    inclusive or the node after `end` carries it too -/
+theorem marksAcross_spec (S : Schema) (r e : RPos) :
+    (r.marksAcross S e = none ↔
+      (r.parent.kids[r.index r.depth]? = none ∨
+       ∃ a, r.parent.kids[r.index r.depth]? = some a ∧ (S.nodeType (S.tyOf a)).isInline = false)) ∧
+    (∀ ms, r.marksAcross S e = some ms →
+      ∃ a, r.parent.kids[r.index r.depth]? = some a ∧ (S.nodeType (S.tyOf a)).isInline = true ∧
+        ms = a.marks.filter (fun m =>
+          (S.markType m.ty).inclusive ||
+          (match e.parent.kids[e.index e.depth]? with
+           | none => false
+           | some o => m.isInSet o.marks))) := by
+  unfold RPos.marksAcross
+  cases hk : r.parent.kids[r.index r.depth]? with
+  | none => simp
+  | some a =>
+    cases hi : (S.nodeType (S.tyOf a)).isInline with
+    | false => simp [hi]
+    | true =>
+      simp only [hi, Bool.not_true, Bool.false_eq_true, ↓reduceIte, reduceCtorEq, false_iff, not_or,
+        not_exists, not_and, Option.some.injEq]
+      refine ⟨⟨by simp, fun x hx => by simp_all⟩, ?_⟩
+      intro ms hms
+      refine ⟨a, rfl, hi, ?_⟩
+      subst hms
+      unfold RPos.dropNonInclusive
+      congr 1
+      funext m
+      cases (S.markType m.ty).inclusive <;> cases e.parent.kids[e.index e.depth]? <;> simp
+
+/-- the marks `marks_across` returns are marks of the node after the position, in their order -/
+theorem marksAcross_sublist (S : Schema) (r e : RPos) (ms : Marks) (h : r.marksAcross S e = some ms) :
+    ∃ a, r.parent.kids[r.index r.depth]? = some a ∧ ms.Sublist a.marks := by
+  obtain ⟨a, ha, _, hms⟩ := (marksAcross_spec S r e).2 ms h
+  exact ⟨a, ha, by rw [hms]; exact List.filter_sublist⟩
+
+/-- **`NodeRange` accessors**: for a range at depth `d` (at most the depth of both ends) `start` is the
+    position before `from`'s child at depth `d + 1` (or `from` itself at its own depth), `end` the position
+    after `to`'s, and the two indices are `from.index(d)` / `to.index_after(d)` in the same parent -/
+theorem nodeRangeInfo_spec (rf rt : RPos) (d : Nat) (hf : d ≤ rf.depth) (ht : d ≤ rt.depth) :
+    ∃ s e, nodeRangeInfo rf rt d = some (s, e, rf.index d, rt.indexAfter d, (rf.node d).kids.length) ∧
+      rf.before (d + 1) = some s ∧ rt.after (d + 1) = some e := by
+  unfold nodeRangeInfo
+  have hb : ∃ s, rf.before (d + 1) = some s := by
+    unfold RPos.before
+    by_cases h1 : d + 1 = rf.depth + 1
+    · exact ⟨rf.pos, by simp [h1]⟩
+    · have h2 : d ≠ rf.depth := by omega
+      have : d + 1 ≤ rf.depth := by omega
+      exact ⟨(rf.entry d).pos, by simp [h2, this]⟩
+  have ha : ∃ e, rt.after (d + 1) = some e := by
+    unfold RPos.after
+    by_cases h1 : d + 1 = rt.depth + 1
+    · exact ⟨rt.pos, by simp [h1]⟩
+    · have h2 : d ≠ rt.depth := by omega
+      have : d + 1 ≤ rt.depth := by omega
+      exact ⟨(rt.entry d).pos + (rt.node (d + 1)).size, by simp [h2, this]⟩
+  obtain ⟨s, hs⟩ := hb
+  obtain ⟨e, he⟩ := ha
+  exact ⟨s, e, by simp [hs, he], hs, he⟩
 
 end PM.C09
